@@ -36,6 +36,26 @@ type c05Step struct {
 	// the feed ("cleans up ... from all data"), 3 = Clear() and automatic variables switched off for this feed; 4 (expression parser, may be
 	// combined) = also through ParseTokens, one list object twice. CSV tokenizers: 8 = rejected configuration calls first.
 	Mode int `json:"mode,omitempty"`
+	// tokenizers: k > 0 = before this feed the caller switches the instance to option set (k-1) & 127, calling the seven
+	// option setters in the rotation that ends with setter ((k-1) >> 7) % 7; the fresh instance is constructed with that
+	// option set. 0 = the options stay as they are.
+	Reopt int `json:"reopt,omitempty"`
+}
+
+// setOptionsRotated calls the seven option setters starting behind setter `last` and ending with it.
+func setOptionsRotated(t tokenizers.ITokenizer, bits int, last int) {
+	setters := []func(){
+		func() { t.SetSkipUnknown(bits&optSkipUnknown != 0) },
+		func() { t.SetSkipWhitespaces(bits&optSkipWhitespaces != 0) },
+		func() { t.SetSkipComments(bits&optSkipComments != 0) },
+		func() { t.SetSkipEof(bits&optSkipEof != 0) },
+		func() { t.SetMergeWhitespaces(bits&optMergeWhitespaces != 0) },
+		func() { t.SetUnifyNumbers(bits&optUnifyNumbers != 0) },
+		func() { t.SetDecodeStrings(bits&optDecodeStrings != 0) },
+	}
+	for i := 1; i <= len(setters); i++ {
+		setters[(last+i)%len(setters)]()
+	}
 }
 
 // userFunctions returns function list j: Fx() = 10*j+1, Gx(a) = [j, a].
@@ -153,6 +173,9 @@ func (in *c05Instance) run(st c05Step) (obs string) {
 	f := guard(func() {
 		switch in.kind {
 		case "generic", "expression", "csv", "mustache", "csv-custom", "generic-custom":
+			if st.Reopt > 0 {
+				setOptionsRotated(in.tok, (st.Reopt-1)&127, ((st.Reopt-1)>>7)%7)
+			}
 			if st.Mode == 8 {
 				// a configuration call the tokenizer rejects (a separator that is a quote symbol), then the accepted
 				// configuration set again: nothing of the rejected call stays behind
@@ -332,7 +355,11 @@ func (in *c05Instance) run(st c05Step) (obs string) {
 
 func checkC05(c c05Case) *evid.Fail {
 	reused := newC05Instance(c.Kind, c.Opts)
+	curOpts := c.Opts
 	for i, st := range c.Steps {
+		if st.Reopt > 0 && reused.tok != nil {
+			curOpts = (st.Reopt - 1) & 127
+		}
 		got := reused.run(st)
 		if reused.selfcheck != "" {
 			return evid.F("inconsistent-within-a-feed:"+c.Kind, "%s instance: %s", c.Kind, reused.selfcheck)
@@ -344,7 +371,8 @@ func checkC05(c c05Case) *evid.Fail {
 		if plain.Mode == 8 {
 			plain.Mode = 0 // the fresh instance never sees the rejected configuration calls
 		}
-		fresh := newC05Instance(c.Kind, c.Opts)
+		plain.Reopt = 0
+		fresh := newC05Instance(c.Kind, curOpts)
 		want := fresh.run(plain)
 		if fresh.rescan != "" {
 			return evid.F("rescan-differs:"+c.Kind, "%s instance, input %q: %s; %s", c.Kind, st.Input, fresh.rescan, want)
@@ -440,27 +468,30 @@ func TestC05_Exhaustive(t *testing.T) {
 				optSets = []int{-1, 0}
 			}
 			for _, o := range optSets {
-				c05Run(rec, c05Case{kind, o, []c05Step{{a, -1, 0, 0, 0}, {b, -1, 0, 1, 0}}})
+				c05Run(rec, c05Case{kind, o, []c05Step{{a, -1, 0, 0, 0, 0}, {b, -1, 0, 1, 0, 0}}})
 				if isTok {
-					c05Run(rec, c05Case{kind, o, []c05Step{{a, 1, 2, 0, 0}, {b, -1, 0, 0, 0}}})
-					c05Run(rec, c05Case{kind, o, []c05Step{{a, -1, 0, 0, 0}, {b, -1, 3, 0, 0}}})
+					c05Run(rec, c05Case{kind, o, []c05Step{{a, 1, 2, 0, 0, 0}, {b, -1, 0, 0, 0, 0}}})
+					c05Run(rec, c05Case{kind, o, []c05Step{{a, -1, 0, 0, 0, 0}, {b, -1, 3, 0, 0, 0}}})
 					// the other entry points on a used instance (after a complete and after an abandoned feed)
-					c05Run(rec, c05Case{kind, o, []c05Step{{a, -1, 0, 0, 0}, {b, -1, 0, 0, 1 + i%4}}})
-					c05Run(rec, c05Case{kind, o, []c05Step{{a, 1, 1, 0, 0}, {b, -1, 0, 0, 1 + (i/4)%4}}})
+					c05Run(rec, c05Case{kind, o, []c05Step{{a, -1, 0, 0, 0, 0}, {b, -1, 0, 0, 1 + i%4, 0}}})
+					c05Run(rec, c05Case{kind, o, []c05Step{{a, 1, 1, 0, 0, 0}, {b, -1, 0, 0, 1 + (i/4)%4, 0}}})
+					// the options are switched between the feeds (every option set x every last-called setter, spread over the pairs)
+					c05Run(rec, c05Case{kind, o, []c05Step{{Input: a, Abort: -1}, {Input: b, Abort: -1, Mode: (i / 7) % 5, Reopt: 1 + (i*31+len(kind))%896}}})
+					c05Run(rec, c05Case{kind, o, []c05Step{{Input: a, Abort: -1, Mode: 1, Reopt: 1 + (i*17)%896}, {Input: a, Abort: -1, Mode: 1, Reopt: 1 + (i%7)<<7}}})
 				} else {
 					// Clear() between the feeds (with and without automatic variables afterwards)
-					c05Run(rec, c05Case{kind, o, []c05Step{{a, -1, 0, 0, 0}, {b, -1, 0, 1, 1 + 2*(i%2)}}})
+					c05Run(rec, c05Case{kind, o, []c05Step{{a, -1, 0, 0, 0, 0}, {b, -1, 0, 1, 1 + 2*(i%2), 0}}})
 					if kind == "exprparser" {
-						c05Run(rec, c05Case{kind, o, []c05Step{{a, -1, 0, 0, 4}, {b, -1, 0, 0, 4}}})
+						c05Run(rec, c05Case{kind, o, []c05Step{{a, -1, 0, 0, 4, 0}, {b, -1, 0, 0, 4, 0}}})
 					}
 				}
 				if kind == "csv" || kind == "csv-custom" {
-					c05Run(rec, c05Case{kind, o, []c05Step{{a, -1, 0, 0, 0}, {b, -1, 0, 0, 8}}})
+					c05Run(rec, c05Case{kind, o, []c05Step{{a, -1, 0, 0, 0, 0}, {b, -1, 0, 0, 8, 0}}})
 				}
 			}
 			for k := 0; k < triples/len(c05Kinds); k++ {
 				third := c05Pool[int(splitmix(&x)%uint64(n))]
-				c05Run(rec, c05Case{kind, -1, []c05Step{{a, -1, 0, 0, 0}, {b, -1, 0, 1, 0}, {third, -1, 0, 0, 0}}})
+				c05Run(rec, c05Case{kind, -1, []c05Step{{a, -1, 0, 0, 0, 0}, {b, -1, 0, 1, 0, 0}, {third, -1, 0, 0, 0, 0}}})
 			}
 		}
 	})
@@ -490,7 +521,7 @@ func TestC05_RapidSM(t *testing.T) {
 				if kind == "mustacheparser" || kind == "template" {
 					in = strings.ReplaceAll(strings.ReplaceAll("{{"+in+"}}", " + ", "}}{{"), " * 2", "")
 				}
-				steps = append(steps, c05Step{in, -1, 0, 0, 0})
+				steps = append(steps, c05Step{in, -1, 0, 0, 0, 0})
 				continue
 			}
 			switch rapid.IntRange(0, 6).Draw(rt, "mut") {
@@ -516,7 +547,7 @@ func TestC05_RapidSM(t *testing.T) {
 					in = sb.String()
 				}
 			}
-			st := c05Step{in, -1, 0, rapid.IntRange(0, 2).Draw(rt, "fn"), 0}
+			st := c05Step{in, -1, 0, rapid.IntRange(0, 2).Draw(rt, "fn"), 0, 0}
 			if !isTok && rapid.IntRange(0, 5).Draw(rt, "clear") == 0 {
 				st.Mode = rapid.SampledFrom([]int{1, 3}).Draw(rt, "clearmode")
 			}
@@ -534,6 +565,9 @@ func TestC05_RapidSM(t *testing.T) {
 				if rapid.IntRange(0, 2).Draw(rt, "hn") == 0 {
 					st.HasNext = rapid.IntRange(1, 3).Draw(rt, "hasnext")
 				}
+			}
+			if isTok && rapid.IntRange(0, 4).Draw(rt, "reopt") == 0 {
+				st.Reopt = 1 + rapid.IntRange(0, 127).Draw(rt, "newopts") + rapid.IntRange(0, 6).Draw(rt, "lastsetter")<<7
 			}
 			steps = append(steps, st)
 		}
